@@ -312,7 +312,7 @@ PROPS = {
                   'live', 'val', 'page', 'commit', 'drop', 'dropl', 'pstatus', 'reset', 'seeknode', 'iter'],
         "tags": ['C11', 'C01', 'C02', 'C05'],
         "runs": DB_SCN(["rejected-overlay-marks-committed"]) + [DB("overlay", 200, 2000, nops=18), DB("general", 60, 600, nops=16), dict(OVL_RUN), dict(DELTA_RUNS[0]), dict(SEEK_RUN),
-                 # F23 (open): a session on a SUPERSEDED overlay chain; plus plain ABA changesets (prepared on r, competing commit rolled back) which must pass
+                 # F23 (repaired a527db9): a session on a SUPERSEDED overlay chain must be refused at finish; plus plain ABA changesets (prepared on r, competing commit rolled back) which must pass
                  {"cmd": "lockrec-aba", "cases": {"quick": 300, "thorough": 300}, "shards": {"quick": 1, "thorough": 1}, "seed": 1, "corpus": True}],
         "rule": DB_RULE + OVL_RULE + SEEK_RULE + " C11 focus: overlay trees (chains, sibling forks, dropped and committed ancestors), sessions on every live fork, wrong / incomplete / reordered ancestor lists, in-order and out-of-order overlay commits.",
         "trusted_base": API_TB, "assumptions": API_ASSUME,
